@@ -1,8 +1,183 @@
 import RbV.Basic.Codec
-/-! Driver for property C09 (line protocol → verdict). -/
-namespace RbV.Drv.C09
-open RbV.Codec
+import RbV.Ref.EditDist
+/-! Driver for property C09: approximate matchers and distance functions.
 
-def verdict (_toks : List String) (_out : String) : String := "bad-op unimplemented"
+`c09 my <s|l> <w> <new|bld> <pattern> <amb> <wild> <op>/… => <obs>/…`
+      ops `f:<k>:<text>` (find_all_end → `j:d,…`), `d:<text>` (distance), `b:<text>` (find_best_end → `j:d`);
+      an operation that panicked is `P`.  Single-word version with |p| > w: the whole line must be `PANIC …`.
+`c09 uk <unit|tab:<s>:<digits>> <cap> <k>:<pattern>:<text>/… => <j:d,…>/…`
+`c09 dist <ham|lev|sham|slev|blev> <a> <b> <k> => n | none | PANIC …`
+
+Expected values come from `EditDist.lastRow` (proved: entry j = min over all starts of `ed`), `EditDist.edFast`
+(proved = `ed`) and `EditDist.hamming`. -/
+namespace RbV.Drv.C09
+open RbV.Codec RbV.EditDist
+
+/-- `-` or `;`-separated `<sym hex>:<equivalents hex>` -/
+def parseAmb (s : String) : Option (List (Nat × List Nat)) :=
+  if s = "-" then some [] else
+    (s.splitOn ";").mapM fun item =>
+      match item.splitOn ":" with
+      | [a, b] =>
+        match parseHex a, parseHex b with
+        | some [x], some e => some (x, e)
+        | _, _ => none
+      | _ => none
+
+/-- pattern symbol `a` matches text symbol `b`: equal, or `b` listed as an equivalent of `a`, or `b` a text wildcard -/
+def mkEqv (amb : List (Nat × List Nat)) (wild : List Nat) (a b : Nat) : Bool :=
+  a == b || wild.contains b ||
+    (match amb.find? (fun e => e.1 == a) with
+     | some e => e.2.contains b
+     | none => false)
+
+def showPairs (l : List (Nat × Nat)) : String :=
+  if l.isEmpty then "-" else ",".intercalate (l.map fun (j, d) => toString j ++ ":" ++ toString d)
+
+def wordSizes : List Nat := [8, 16, 32, 64]
+
+/-- expected observation of one Myers operation; `none` = unparseable; `some none` = anything is accepted -/
+def expectOp (eqv : Nat → Nat → Bool) (p : List Nat) (op : String) : Option (Option String × String) :=
+  match op.splitOn ":" with
+  | ["f", ks, th] =>
+    match parseNat ks, parseHex th with
+    | some k, some t =>
+      let hs := hits (unitW eqv) p t k
+      let tag := (if hs.isEmpty then "" else " hit") ++ (if k ≥ p.length then " k>=m" else "")
+        ++ (if hs.length < t.length && !hs.isEmpty && hs.any (fun h => h.2 > 0) then " nt" else "")
+      some (some (showPairs hs), tag)
+    | _, _ => none
+  | ["d", th] =>
+    match parseHex th with
+    | some t =>
+      match firstMin 0 (lastRow (unitW eqv) p t) with
+      | some (_, d) => some (some (toString d), " dist" ++ (if p.length ≥ 2 && d > 0 then " nt" else ""))
+      | none => some (none, " empty-text")
+    | none => none
+  | ["b", th] =>
+    match parseHex th with
+    | some t =>
+      match firstMin 0 (lastRow (unitW eqv) p t) with
+      | some (j, d) => some (some (toString j ++ ":" ++ toString d), " best" ++ (if p.length ≥ 2 && d > 0 then " nt" else ""))
+      | none => some (none, " empty-text")
+    | none => none
+  | _ => none
+
+def dedupTags (s : String) : String :=
+  let ws := (s.splitOn " ").filter (· ≠ "")
+  let u := ws.foldl (fun acc x => if acc.contains x then acc else acc ++ [x]) []
+  if u.isEmpty then "" else " " ++ " ".intercalate u
+
+def verdictMy (toks : List String) (out : String) : String :=
+  match toks with
+  | [impl, ws, mode, ph, ambs, wilds, opss] =>
+    match parseNat ws, parseHex ph, parseAmb ambs, parseHex wilds with
+    | some w, some p, some amb, some wild =>
+      if !(impl = "s" || impl = "l") || !wordSizes.contains w || !(mode = "new" || mode = "bld") || p.isEmpty then
+        "bad-op my-parameters" else
+      if impl = "s" && p.length > w then
+        if out.startsWith "PANIC" then "ok refused" else "reject pattern-longer-than-word-not-refused"
+      else
+      if out.startsWith "PANIC" || out.startsWith "HANG" || out.startsWith "CRASH" then "reject " ++ out else
+      let eqv := mkEqv amb wild
+      let ops := opss.splitOn "/"
+      let obs := out.splitOn "/"
+      if ops.length ≠ obs.length then "reject arity" else
+      match ops.mapM (expectOp eqv p) with
+      | none => "bad-op my-operation"
+      | some exps =>
+        let ok := (exps.zip obs).all fun (e, o) => match e.1 with
+          | some s => s == o
+          | none => true
+        let tags := dedupTags (String.join (exps.map (·.2)) ++ " " ++ impl ++ toString w
+          ++ (if p.length = w then " m=w" else "") ++ (if p.length > w then " blocks>1" else "")
+          ++ (if p.length > 2 * w then " blocks>2" else "")
+          ++ (if !amb.isEmpty || !wild.isEmpty then " tables" else "") ++ (if ops.length > 1 then " reuse" else ""))
+        if ok then "ok" ++ tags
+        else
+          -- which operations differ (kind=P for a panic, kind=v for a wrong value) and how many blocks the pattern spans
+          let mism := ((ops.zip exps).zip obs).filterMap fun ((op, e), o) => match e.1 with
+            | some s =>
+              if s == o then none else
+              let kind := match op.splitOn ":" with
+                | ["f", ks, _] => if (parseNat ks).getD 0 + w ≥ 2 ^ 64 then "fbig" else "f"
+                | k :: _ => k
+                | [] => "?"
+              some (kind ++ "=" ++ (if o = "P" then "P" else "v"))
+            | none => none
+          "diff " ++ "/".intercalate (exps.map fun e => e.1.getD "*") ++ " mism:" ++ ",".intercalate mism
+            ++ " blocks:" ++ toString ((p.length + w - 1) / w)
+    | _, _, _, _ => "bad-op my-parse"
+  | _ => "bad-op my-arity"
+
+/-- cost function of a `uk` line -/
+def parseCost (spec : String) : Option (Nat → Nat → Nat) :=
+  if spec = "unit" then some (unitW eqSym) else
+  match spec.splitOn ":" with
+  | ["tab", ss, ds] =>
+    match parseNat ss with
+    | some s =>
+      let tab := ds.toList.map (fun c => c.toNat - '0'.toNat)
+      if s = 0 || tab.length ≠ s * s || !ds.toList.all Char.isDigit then none
+      else some (fun a b => tab.getD ((a % s) * s + (b % s)) 0)
+    | none => none
+  | _ => none
+
+def verdictUk (toks : List String) (out : String) : String :=
+  match toks with
+  | [cs, _cap, ss] =>
+    match parseCost cs with
+    | none => "bad-op cost"
+    | some w =>
+      if out.startsWith "PANIC" || out.startsWith "HANG" || out.startsWith "CRASH" then "reject " ++ out else
+      let searches := ss.splitOn "/"
+      let obs := out.splitOn "/"
+      if searches.length ≠ obs.length then "reject arity" else
+      let exps := searches.mapM fun s =>
+        match s.splitOn ":" with
+        | [ks, ph, th] =>
+          match parseNat ks, parseHex ph, parseHex th with
+          | some k, some p, some t => if p.isEmpty then none else some (hits w p t k, t.length)
+          | _, _, _ => none
+        | _ => none
+      match exps with
+      | none => "bad-op uk-search"
+      | some es =>
+        let strs := es.map (fun e => showPairs e.1)
+        if strs = obs then
+          let nt := es.any fun e => !e.1.isEmpty && e.1.length < e.2 && e.1.any (fun h => h.2 > 0)
+          "ok uk" ++ (if nt then " nt" else "") ++ (if cs = "unit" then " unit" else " table")
+            ++ (if es.length > 1 then " reuse" else "")
+        else "diff " ++ "/".intercalate strs
+  | _ => "bad-op uk-arity"
+
+def verdictDist (toks : List String) (out : String) : String :=
+  match toks with
+  | [f, ah, bh, ks] =>
+    match parseHex ah, parseHex bh, parseNat ks with
+    | some a, some b, some k =>
+      if out.startsWith "HANG" || out.startsWith "CRASH" then "reject " ++ out else
+      if f = "ham" || f = "sham" then
+        match hamming a b with
+        | none => if out.startsWith "PANIC" then "ok refused " ++ f else "reject unequal-lengths-not-refused"
+        | some d => if out = toString d then "ok " ++ f ++ (if d > 0 then " nt" else "") else "diff " ++ toString d
+      else if f = "lev" || f = "slev" then
+        let d := edFast (unitW eqSym) a b
+        if out = toString d then "ok " ++ f ++ (if d > 0 && !a.isEmpty && !b.isEmpty then " nt" else "") else "diff " ++ toString d
+      else if f = "blev" then
+        let d := edFast (unitW eqSym) a b
+        let e := if d ≤ k then toString d else "none"
+        if out = e then "ok blev" ++ (if d ≤ k then " within" else " none") ++ (if d > 0 && !a.isEmpty && !b.isEmpty then " nt" else "")
+        else "diff " ++ e
+      else "bad-op dist-fn"
+    | _, _, _ => "bad-op dist-parse"
+  | _ => "bad-op dist-arity"
+
+def verdict (toks : List String) (out : String) : String :=
+  match toks with
+  | "my" :: r => verdictMy r out
+  | "uk" :: r => verdictUk r out
+  | "dist" :: r => verdictDist r out
+  | _ => "bad-op c09-op"
 
 end RbV.Drv.C09
